@@ -561,11 +561,77 @@ def check_mutation_history(stats, case):
     return "mutation history (%s) of %d edits" % (kind, n), n >= 1
 
 
+# ------------------------------------------------------------------------------------------------ process environment
+
+ENV_VALUES = ["1", "true", "0", "strict", "js", "php", "compat", "debug", "off", ""]
+ENV_PROBES = [
+    ({"!!": ["0"]}, None), ({"!!": [[]]}, None), ({"if": ["0", 1, 2]}, None), ({"==": ["1", 1]}, None), ({"==": [None, 0]}, None), ({"<": ["10", "9"]}, None), ({"+": ["1", "2"]}, None),
+    ({"cat": [None, 1.0, [1, [2]], {}]}, None), ({"substr": ["héllo", 1, 2]}, None), ({"in": ["a", "ABC"]}, None), ({"merge": [None, [1]]}, None), ({"var": "a.b.1"}, {"a": {"b": [1, "2"]}}),
+    ({"var": ["n", 5]}, {"n": None}), ({"missing": ["a", "x"]}, {"a": 1}), ({"map": [[1, "2"], {"*": [{"var": ""}, 2]}]}, None), ({"filter": [[0, "0", "", " ", []], {"var": ""}]}, None),
+    ({"max": ["2", 10]}, None), ({"/": [1, 3]}, None), ({"var": ""}, 1.0), ({"var": ""}, {"k": [True, 1, 1.0, "1"]}), ({"==": [1]}, None), ({"unknown_operator": 1}, None),
+]
+_ENV_NAMES = None
+
+
+def env_candidate_names():
+    """every ALL-CAPS identifier (3-40 characters) in the wrapper's source and in the extension's bytes: the names a
+    program looks up are its own string constants (no word boundary required: Rust constants are packed)"""
+    global _ENV_NAMES
+    if _ENV_NAMES is None:
+        import re
+        names = set()
+        for f in ("__init__.py", "jsonlogic.so"):
+            blob = open(os.path.join(PKG, "jsonlogic_rs", f), "rb").read()
+            for m in re.finditer(rb"[A-Z][A-Z0-9_]{2,39}", blob):
+                n = m.group(0).decode()
+                if n.startswith(("LD_", "MALLOC_", "GLIBC_", "PYTHON")) or n in ("PATH", "RUST_MIN_STACK"):
+                    continue
+                names.add(n)
+                names.add(n.rstrip("_"))
+                end = m.end()
+                if end < len(blob) and 97 <= blob[end] <= 122 and len(n) >= 4:
+                    names.add(n[:-1].rstrip("_"))
+        _ENV_NAMES = sorted(x for x in names if len(x) >= 3)[:30000]
+    return _ENV_NAMES
+
+
+def check_environment(stats, c):
+    """every probe with the ordinary environment and with every candidate name set (os.environ, hence visible to the
+    extension too): both must return exactly what the library (oracle server, started earlier) gives"""
+    value = ENV_VALUES[c % len(ENV_VALUES)]
+    names = env_candidate_names()
+    if not names:
+        raise AssertionError("oracle_broken: no candidate environment names")
+    wants, plains = [], []
+    for rule, data in ENV_PROBES:
+        wants.append(expect_from_texts(json.dumps(rule), json.dumps(data), MISSING))
+        plains.append(run_call(lambda: jsonlogic_rs.apply(rule, data)))
+    saved = dict(os.environ)
+    hostiles = []
+    try:
+        # setenv is linear in the size of the environment: set the thousands of names once per case, not per probe
+        for n in names:
+            os.environ[n] = value
+        os.environ["LANG"] = os.environ["LC_ALL"] = "tr_TR.UTF-8"
+        os.environ["TZ"] = "Pacific/Kiritimati"
+        for rule, data in ENV_PROBES:
+            hostiles.append(run_call(lambda: jsonlogic_rs.apply(rule, data)))
+    finally:
+        os.environ.clear()
+        os.environ.update(saved)
+    stats.evals += 2 * len(ENV_PROBES)
+    for (rule, data), want, plain, hostile in zip(ENV_PROBES, wants, plains, hostiles):
+        judge("apply(%s, %s) in the ordinary environment" % (describe(rule), describe(data)), want, plain)
+        judge("apply(%s, %s) with every ALL-CAPS name of the module set to %r" % (describe(rule), describe(data), value), want, hostile)
+    return "environment value %r" % value, True
+
+
 BODIES = {
     "py_twin_history": lambda stats, c: check_twin_history(stats, c),
     "py_concat_history": lambda stats, c: check_concat_history(stats, c),
     "py_mutation_history": lambda stats, c: check_mutation_history(stats, c),
     "py_scalar_history": lambda stats, c: check_scalar_history(stats, c),
+    "py_environment": lambda stats, c: check_environment(stats, c),
     "py_apply": lambda stats, c: check_apply(stats, c[0], c[1], c[2], c[3], c[4]),
     "py_apply_serialized": lambda stats, c: check_apply_serialized(stats, c[0], c[1], c[2], c[3]),
     "py_total": lambda stats, c: check_total(stats, c[0], c[1], c[2]),
@@ -645,6 +711,12 @@ if args.prop == "C19":
         st.tuples(st.one_of(st.sampled_from(TWIN_RULES), rules(st.sampled_from([0, 1, True, False, 1.0, 0.0, "1", "0", None]))), st.sampled_from([None, 1, 0, True, 0.0, {"xs": [0, 1]}, [1, 0], {}]), st.lists(st.integers(0, 5), min_size=1, max_size=3)),
         lambda stats, c: check_twin_history(stats, c),
         max(200, n // 4),
+    )
+    run_sub(
+        "py_environment",
+        st.integers(0, len(ENV_VALUES) - 1),
+        lambda stats, c: check_environment(stats, c),
+        24,
     )
     run_sub(
         "py_mutation_history",
